@@ -211,23 +211,34 @@ def parseSimEv (s : String) : Option SimEv :=
   | ["R", n, c, l] => do pure (.rst (← hexStr n) (← c.toNat?) (← l.toInt?))
   | _ => none
 
-/-- run the events; the step events go through `sim` one report step at a time -/
-def simRun : List ActDef → AState → List SimEv → List (Key × Int) → List ActDef × AState × List (Key × Int)
-  | acts, s, [], log => (acts, s, log)
-  | acts, s, .define n l :: r, log => simRun (addAction acts n l) s r log
-  | acts, s, .rst n c l :: r, log =>
+/-- the state between report steps is kept as a finite table (newest entry first) and handed to
+`sim`/`simState` as the function it denotes: a compiled `AState` closure would re-run the whole
+history at every look-up -/
+def tblState (tbl : List (Key × RunState)) : AState := fun k => (tbl.lookup k).getD ⟨0, 0⟩
+
+/-- run the events; the step events go through `sim`/`simState` one report step at a time -/
+def simRun : List ActDef → List (Key × RunState) → List SimEv → List (Key × Int) →
+    List ActDef × List (Key × RunState) × List (Key × Int)
+  | acts, tbl, [], log => (acts, tbl, log)
+  | acts, tbl, .define n l :: r, log => simRun (addAction acts n l) tbl r log
+  | acts, tbl, .rst n c l :: r, log =>
     match acts.find? (fun a => a.key.1 = n) with
-    | some a => simRun acts (if c > 0 then loadRst s a.key c l else s) r log
-    | none => simRun acts s r log
-  | acts, s, .step t ns :: r, log =>
+    | some a =>
+      let v := (if c > 0 then loadRst (tblState tbl) a.key c l else tblState tbl) a.key
+      simRun acts ((a.key, v) :: tbl) r log
+    | none => simRun acts tbl r log
+  | acts, tbl, .step t ns :: r, log =>
     let ev : Int × (Key → Bool) := (t, fun k => ns.contains k.1)
-    simRun acts (simState acts s [ev]) r (log ++ sim acts s [ev])
+    let s := tblState tbl
+    let tbl' := acts.map (fun a => (a.key, (simState acts s [ev]) a.key)) ++ tbl
+    simRun acts tbl' r (log ++ sim acts s [ev])
 
 def simHandle (args : List String) : String :=
   match args.mapM parseSimEv with
   | none => "bad-op"
   | some evs =>
-    let (acts, s, log) := simRun [] AState.empty evs []
+    let (acts, tbl, log) := simRun [] [] evs []
+    let s := tblState tbl
     let showK (k : Key) : String := strHex k.1 ++ "." ++ toString k.2
     (if log.isEmpty then "-" else ",".intercalate (log.map fun e => showK e.1 ++ "@" ++ toString e.2)) ++ " ;" ++
       String.join (acts.map fun a => " " ++ showK a.key ++ "=" ++ toString (s a.key).count ++ ":" ++
